@@ -65,7 +65,7 @@ def main():
     by_round = {}
     for bid, st_ in status.items():
         k_ = int(bid.split("-")[1])
-        rnd = "round 4" if k_ <= 4 else ("round 5 (held out: written after the rules were generalised)" if k_ <= 7 else "round 6 (held out)")
+        rnd = "round 4" if k_ <= 4 else ("round 5 (held out: written after the rules were generalised)" if k_ <= 7 else "rounds 6 and 7 (held out)")
         d_ = by_round.setdefault(rnd, dict(silent=0, undecided=0, false_alarm=0, noapply=0))
         key = "silent" if st_["status"] == "silent" else ("false_alarm" if st_["status"] == "FALSE ALARM" else ("undecided" if st_["status"].startswith("undecided") else "noapply"))
         d_[key] += 1
